@@ -196,9 +196,23 @@ func (fv *FV) allocZero(st *State, t types.Type, pos token.Pos) Term {
 	r := fv.newRef(st, "new"+named.Obj().Name())
 	for j := 0; j < sty.NumFields(); j++ {
 		key, _ := fv.fieldComp(named, sty.Field(j))
-		fv.heapSetNoFrame(st, key, sto(fv.heapGet(st, key), r, fv.zero(sty.Field(j).Type()).S))
+		z := fv.zero(sty.Field(j).Type()).S
+		if isUserByRef(sty.Field(j).Type()) {
+			z = fv.allocEmbedded(st, key, r, sty.Field(j).Type(), pos)
+		}
+		fv.heapSetNoFrame(st, key, sto(fv.heapGet(st, key), r, z))
 	}
+	fv.initGhostFields(st, named, r)
 	return Term{S: r, Sort: sInt, T: types.NewPointer(t)}
+}
+
+// allocEmbedded allocates the zero object embedded in field `key` of the new object owner.
+func (fv *FV) allocEmbedded(st *State, key, owner string, t types.Type, pos token.Pos) string {
+	e := fv.allocZero(st, t, pos)
+	own := "owner$" + cleanName(key)
+	fv.declare(own, fmt.Sprintf("(declare-fun %s (Int) Int)", own))
+	fv.define(st, eq(app(own, e.S), owner))
+	return e.S
 }
 
 // makeSlice: fresh backing array, all elements zero.
@@ -754,6 +768,13 @@ func (fv *FV) callByContract(st *State, fc *FuncContract, pc *PkgContracts, osig
 				}
 			}
 		}
+		if isUserByRef(t) {
+			// a struct returned by value (held by reference): a fresh object, described by the postconditions
+			ref := fv.newRef(st, "ret"+cleanName(name))
+			results = append(results, Term{S: ref, Sort: sInt, T: t})
+			fv.havocObject(st, ref, t)
+			continue
+		}
 		r := Term{S: fv.fresh(fmt.Sprintf("%s.r%d", name, i), s), Sort: s, T: t}
 		results = append(results, r)
 		fv.assumeWF(st, r)
@@ -954,6 +975,9 @@ func (fv *FV) modTarget(env *Env, e SExpr) []modTarget {
 					return []modTarget{{key: "F:" + shortPkg(pkgPathOf(named.Obj())) + "." + named.Obj().Name() + "." + x.Name + "$ghost", ref: p.S}}
 				}
 			}
+		}
+		if isUserByRef(p.T) {
+			p.T = types.NewPointer(p.T)
 		}
 		pt, ok := p.T.Underlying().(*types.Pointer)
 		if !ok {
@@ -1159,5 +1183,27 @@ func (fv *FV) guardCheck(st *State, base Term, field string, what string, pos to
 			fv.compSort["L:held"] = arr(sInt, sBool)
 			fv.oblige(st, "lock.guard["+what+"]", sel(fv.heapGet(st, "L:held"), base.S), "field "+field+" is accessed only while the mutex is held: "+what, nil, pos)
 		}
+	}
+}
+
+// havocObject gives every field of the fresh by-reference struct object ref an arbitrary well-formed value.
+func (fv *FV) havocObject(st *State, ref string, t types.Type) {
+	named, sty := structOf(t)
+	if sty == nil || named == nil {
+		return
+	}
+	for j := 0; j < sty.NumFields(); j++ {
+		f := sty.Field(j)
+		key, sort := fv.fieldComp(named, f)
+		if isUserByRef(f.Type()) {
+			e := fv.allocEmbedded(st, key, ref, f.Type(), token.NoPos)
+			fv.heapSetNoFrame(st, key, sto(fv.heapGet(st, key), ref, e))
+			fv.havocObject(st, e, f.Type())
+			continue
+		}
+		_, es := arraySorts(sort)
+		v := Term{S: fv.fresh("fld."+f.Name(), es), Sort: es, T: f.Type()}
+		fv.heapSetNoFrame(st, key, sto(fv.heapGet(st, key), ref, v.S))
+		fv.assumeWF(st, v)
 	}
 }
